@@ -84,13 +84,13 @@ def rev_iter(ctx, rule):
     # comparisons: forward stops at dst_col (UTF-16), backward after chars_to_move UTF-16 units
     sw = [q.shape(b.expr_of_operand(b.blocks[d]["term"]["discr"]), roles) for d in range(len(b.blocks)) if b.blocks[d]["term"]["k"] == "switch" and not b.blocks[d]["cleanup"]]
     TOK = "try(Option::take(arg1.token))"
-    ctx.check(any(q.same_test(x, "Le(cast<usize>(Token::get_dst_col(%s)),U1)" % TOK) for x in sw), rule, fn, "forward:stop", "the forward scan stops when the UTF-16 counter reaches the token's column", detail=str([s for s in sw if "U1" in s]))
-    ctx.check(any(q.same_test(x, "Le(Sub(var:(&str, usize, usize).1,cast<usize>(Token::get_dst_col(%s))),U2)" % TOK) for x in sw), rule, fn, "backward:stop",
+    ctx.check(any(q.same_test(x, "Le(cast<usize>(%s.raw.dst_col),U1)" % TOK) for x in sw), rule, fn, "forward:stop", "the forward scan stops when the UTF-16 counter reaches the token's column", detail=str([s for s in sw if "U1" in s]))
+    ctx.check(any(q.same_test(x, "Le(Sub(var:(&str, usize, usize).1,cast<usize>(%s.raw.dst_col)),U2)" % TOK) for x in sw), rule, fn, "backward:stop",
               "the backward scan covers (cached column - token column) UTF-16 units", detail=str([s for s in sw if "U2" in s]))
-    ctx.check(any(q.same_test(x, "Eq(cast<usize>(Token::get_dst_line(%s)),try(arg1.source_line).1)" % TOK) for x in sw), rule, fn, "cache:same-line", "the cached line is reused only for a token on the same generated line")
+    ctx.check(any(q.same_test(x, "Eq(cast<usize>(%s.raw.dst_line),try(arg1.source_line).1)" % TOK) for x in sw), rule, fn, "cache:same-line", "the cached line is reused only for a token on the same generated line")
     # ... and on the side where the lines are equal (a test and its negation read alike above): every value built from the
     # cached components sits under the Eq fact; every freshly fetched line does not
-    LINE_EQ = ("Eq", "cast<usize>(Token::get_dst_line(%s))" % TOK, "try(arg1.source_line).1")
+    LINE_EQ = ("Eq", "cast<usize>(%s.raw.dst_line)" % TOK, "try(arg1.source_line).1")
     reuse = fresh = 0
     for l in range(len(b.locals)):
         if not b.local_ty(l).startswith("(&") or l in b.var_names and False:
@@ -105,7 +105,7 @@ def rev_iter(ctx, rule):
     ctx.check(reuse >= 1 and fresh >= 1, rule, fn, "cache:both-sides", "the line cache has a reuse side and a fetch side", detail="reuse %d fetch %d" % (reuse, fresh))
     # cached tuple order
     stores = [q.shape(b.expr_of_rvalue(s["rv"]), roles) for bi, si, s, it in b.locations() if not it and s["k"] == "assign" and s["place"]["p"] and s["place"]["p"][-1].get("n") == "source_line"]
-    want = "Option::Some{0:tuple(var:(&str, usize, usize).0,cast<usize>(Token::get_dst_line(%s)),cast<usize>(Token::get_dst_col(%s)),var:usize)}" % (TOK, TOK)
+    want = "Option::Some{0:tuple(var:(&str, usize, usize).0,cast<usize>(%s.raw.dst_line),cast<usize>(%s.raw.dst_col),var:usize)}" % (TOK, TOK)
     ctx.check(want in stores and "Option::None{}" in stores, rule, fn, "cache:tuple", "the cache stores (line text, generated line, generated column, byte offset) in that order and is cleared when the offset runs past the line", detail=str(stores))
     byteoff = [l for l in sorted(b.var_names) if l not in roles and b.local_ty(l) == "usize" and sorted(sh for sh, _, _ in q.def_shapes(b, l, roles)) in (["NEW", "OFF"],)]
     if byteoff:
